@@ -1026,8 +1026,26 @@ class C09(Prop):
               "succeed (C09_store_step_accepts; induction over the tree: C09_store_update_node_accepts). Hence unconditionally: the step completes, "
               "keeps identifiers / parents / children sets, every temporary is gone, centre = root, iso_check holds, tables only grew "
               "(C09_store_step_total; through the executable hypothesis checker bug_hypb: C09_store_step_checker, C09_store_step_total_checked; "
-              "the leaf condition is needed: C09_example_leaf_two_open_legs_rejected). NOT proved: wfb of the returned store (kernel-checked per "
-              "explored step only)"),
+              "the leaf condition is needed: C09_example_leaf_two_open_legs_rejected)"),
+        ("F", "store level, the RETURNED store is well-formed (Evo/BUGStoreWf.v): under the same hypotheses the store returned by the step "
+              "satisfies the executable store invariant wfb of C02 (equal key sets of the node and tensor dictionaries, unique parentless node = "
+              "root, leg permutations are permutations, recorded shape = dimensions of the tensor's wires, symmetric parent / children links, "
+              "both ends of every edge carry the same wire, owned wires pairwise distinct, wires and dimension table registered, acyclic) - every "
+              "tree, both variants (C09_store_step_wfb, Prop form C09_store_step_wf; with acceptance and the effect theorems: "
+              "C09_store_step_total_wf, through bug_hypb: C09_store_step_total_wf_checked, so the step can be iterated). new_state is NOT "
+              "well-formed mid-step (between the pull of a node and its split_node_replace the parent holds the old bond wire), so C02's "
+              "preservation theorems do not apply; the proof redoes the induction with an exact description of every finished node (logical "
+              "axes = [new parent wire; the children's new parent wires in node order; the node's open wires of the caller's state], new parent "
+              "wires pairwise distinct and allocated during the call: C09_store_update_node_finished) and uses that the KEEP re-centring keeps "
+              "the open wires of every node (C09_store_move_center_keeps_open_wires)"),
+        ("F", "store level, the EXTENDED invariant is preserved (Evo/BUGStoreWf.v): if the caller's store satisfies wfsb of C02 (wfb; every wire of "
+              "every atom of a tensor is an axis of that tensor or summed inside it; summed wires private and registered; every atom occurs "
+              "once in the whole network, was allocated and has an atom-table entry; atom-table keys allocated) so does the returned store, every "
+              "tree, both variants (C09_store_step_wfsb, with acceptance and the effect theorems C09_store_step_total_wfs / _checked; non-vacuity "
+              "and two consecutive steps: C09_example_wfsb), hence the value-level theorems about wfsb stores apply to the result. Ingredients: the "
+              "atom table only grows by appending fresh keys through every primitive and the whole recursion incl. the re-centring, without "
+              "hypotheses (C09_store_update_node_atab_grows); every returned tensor is ONE atom - the Q factor of its QR kernel call resp. the "
+              "time-evolved root tensor - allocated during the processing of its own subtree, whose table entry lists axes of the tensor"),
         ("F", "basis-change matrix as a diagram (compute_basis_change_tensor = the block recursion of contract_any_nodes between the old bases "
               "and the conjugated new bases, children's matrices = recursive calls): under the hypothesis checker bc_okb, legs = [old parent wire; "
               "conjugated new parent wire], atoms = old and conjugated new atoms of the subtree each once, every inner edge wire of both states "
@@ -1036,7 +1054,8 @@ class C09(Prop):
         ("I", "per explored step (both copy strategies): the literal store printed from the caller's state satisfies wfb and the executable checker bug_hypb of "
               "the hypotheses of the acceptance theorem (so that the model accepts is an instance of the theorem), the store model accepts the "
               "step, its observation of the result (node dict order, parents, children order, leg permutations, recorded shapes, tensor dict order, raw "
-              "shapes, root, centre) equals the implementation's exactly, iso_check and wfb hold for the model's final store, shape_root of "
+              "shapes, root, centre) equals the implementation's exactly, iso_check and wfb hold for the model's final store (wfb: a kernel-computed "
+              "cross-check of the universal theorem C09_store_step_wfb, no longer an obligation the theorems depend on), shape_root of "
               "Sched/BUG.v predicts exactly the shapes of the store model's result (shapes_agree), bc_okb holds for every non-root node "
               "(harness/props/c09w.py)"),
         ("V", "every basis-change matrix the implementation computed on a subsample of the steps equals (1e-9) the einsum value of its model "
@@ -1049,7 +1068,7 @@ class C09(Prop):
                     "instrumentation: wrappers around the functions of time_evo_util/common_bug.py, SandwichCache/PartialTreeCachDict and "
                     "TreeTensorNetwork methods installed in the harness process; provenance of cached blocks followed by array identity",
                     "the version of a tensor in a state of old bases is derived from that state's orthogonality_center_id (C03's subject)",
-                    "store-level acceptance (C09_store_step_accepts / _total) is a statement about the Gallina model Evo/BUGStore.v over the frozen "
+                    "store-level acceptance and well-formedness of the result (C09_store_step_accepts / _total / _wfb / _total_wf) are statements about the Gallina model Evo/BUGStore.v over the frozen "
                     "store model; that the model's verdict (accept / reject, and the exception-free run of the code) agrees with common_bug.py is "
                     "the per-step correspondence of harness/props/c09w.py, not a theorem"]
     assumptions = ["one open leg per node (what TTNO.from_hamiltonian supports)", "time-independent Hermitian Hamiltonian, time_evo_mode EXPM"]
